@@ -50,6 +50,18 @@ func (fx *FnCtx) paramValue(name string, t types.Type, nullable bool) Value {
 	for _, f := range facts {
 		fx.assume(f)
 	}
+	// A slice or string parameter is viewed as starting at the first element of its own
+	// backing array (offset 0): array ids are abstract and parameters are assumed not to
+	// alias, so nothing before the first element is reachable. This keeps index terms free
+	// of a symbolic offset, which quantifier instantiation depends on.
+	switch u := t.Underlying().(type) {
+	case *types.Slice:
+		v.L[1] = tc.IdxNum(0)
+	case *types.Basic:
+		if u.Info()&types.IsString != 0 {
+			v.L[1] = tc.IdxNum(0)
+		}
+	}
 	fx.shapeFacts(v, t, 0)
 	return v
 }
